@@ -127,6 +127,105 @@ async def reader_cancel_sweep(flavor, seg, cnt, v, sigs, with_settings=False):
             sigs.add(f"reader-cancel|{flavor}|{seg}|{style}|{k}|{with_settings}")
 
 
+async def writer_cancel_sweep(flavor, cnt, v, sigs):
+    """On an HTTP/2 connection frames are written under one lock, and the header block of a request is HPACK-encoded
+    before it is written. Caller U uploads a large body over a slow link (it holds the write lock most of the time), caller
+    V - a request for another virtual host - is cancelled at its k-th suspension point, for every k and every style; then
+    three more requests for three virtual hosts use whatever connection the pool gives them. Each must be answered by the
+    host it named (or fail with a documented error): a header block that was encoded and then lost would leave the
+    encoder's table ahead of the server's, and later requests would be decoded as other requests."""
+    import anyio
+    from .. import simnet, endpoints, runners
+    from ..endpoints import Resp
+    from ..world import mk_pool, API, guarded, documented, exc_name
+    from ..scenarios import styles_for
+
+    async def one(style, k):
+        net = simnet.Net()
+        net.log_events = False
+        net.latency = lambda kind, idx: 0.02 if kind == "write" else 0.0
+
+        def responder(req, origin):
+            seen = [x for n, x in getattr(req, "h2_headers", None) or [] if n == b":authority"]
+            return Resp(200, b"OK", [(b"X-Echo", req.token or b"-"), (b"X-Host-Seen", b",".join(seen))], b"ok")
+
+        origin = endpoints.Origin(net, "o.test", 443, tls=True, alpn=["h2"], responder=responder, h2_script={"settings": {3: 100}})
+        pool = mk_pool(flavor, net, http2=True, max_connections=2)
+        api = API(flavor, pool, net)
+        res = {"origin": origin}
+
+        async def get(tok, host, user):
+            r_ = await api.request("GET", "https://o.test/", headers=[("Host", host), ("X-Token", tok), ("X-User", user)])
+            hs = {n.lower(): x for n, x in r_.headers}
+            return hs.get(b"x-host-seen", b"").decode(), hs.get(b"x-echo", b"").decode()
+
+        async def scen():
+            await get("W", "a.example", "warm")
+
+            async def u_caller():
+                simnet.CALL.set("U")
+                try:
+                    # (every request adds the same three new fields, in the same order, to the HPACK table - authority,
+                    # token, user - so that a lost header block shifts later references onto entries of the same kind: a
+                    # request is then decoded as a *valid* other request instead of failing to decode)
+                    await api.request("POST", "https://o.test/up", headers=[("Host", "c.example"), ("X-Token", "U"), ("X-User", "u")],
+                                      content=api.body([b"u" * 16000] * 6))
+                    res["U"] = "ok"
+                except Exception as exc:  # noqa
+                    res["U"] = exc
+
+            async def v_caller():
+                simnet.CALL.set("V")
+                await anyio.sleep(0.01)
+                res["V"], res["K"] = await runners.run_with_cancel(flavor, lambda: get("V", "b.example", "victim"), style, k)
+            async with anyio.create_task_group() as tg:
+                tg.start_soon(u_caller)
+                tg.start_soon(v_caller)
+            later = []
+            for tok, host, user in (("L1", "b.example", "bob"), ("L2", "c.example", "carol"), ("L3", "a.example", "alice")):
+                try:
+                    later.append((tok, host, await get(tok, host, user)))
+                except Exception as exc:  # noqa
+                    later.append((tok, host, exc))
+            res["later"] = later
+            return True
+
+        out = await guarded(flavor, scen)
+        await guarded(flavor, api.close_pool)
+        return out, res
+
+    out, res = await one(None, None)
+    K = res.get("K", 0)
+    if out.kind != "ok" or any(isinstance(x[2], Exception) or x[2] != (x[1], x[0]) for x in res.get("later", [])) or not K:
+        v("writer-cancel:baseline-failed", f"{out!r} {res.get('later')!r}"[:400], {"flavor": flavor})
+        return
+    for style in styles_for(flavor):
+        for k in range(1, K + 1):
+            out, res = await one(style, k)
+            cnt["writer_cancel_runs"] = cnt.get("writer_cancel_runs", 0) + 1
+            ctx = {"flavor": flavor, "style": style, "k": k, "of": K}
+            sigs.add(f"writer-cancel|{flavor}|{style}|{k}")
+            if out.kind == "hang":
+                v("writer-cancel:hang", f"V cancelled ({style}) at suspension point {k}/{K}: {out!r}", ctx)
+                continue
+            # whatever was cancelled, what the client did put on the wire must be decodable: the server role of the h2 package
+            # rejecting a header block means the client's HPACK state has run ahead of what it sent
+            for oc in res["origin"].conns:
+                if oc.h2 is not None and oc.h2.protocol_error is not None:
+                    v("desync:server-cannot-decode-client-frames-after-cancelled-write", f"V cancelled ({style}) at suspension point "
+                      f"{k}/{K}: the server rejected the client's frames: {oc.h2.protocol_error!r}", ctx)
+            for tok, host, got in res.get("later", []):
+                if isinstance(got, Exception):
+                    cnt["writer_cancel_later_failed"] = cnt.get("writer_cancel_later_failed", 0) + 1
+                    if not documented(got):
+                        v("writer-cancel:undocumented:" + exc_name(got), repr(got), ctx)
+                else:
+                    cnt["writer_cancel_later_ok"] = cnt.get("writer_cancel_later_ok", 0) + 1
+                    if got != (host, tok):
+                        v("crosstalk:answered-as-another-request-after-cancelled-write", f"V cancelled ({style}) at suspension point "
+                          f"{k}/{K}: the later request {tok} for {host} was answered as {got!r}", ctx)
+
+
 async def early_answer_sweep(flavor, ctype, cnt, v, sigs):
     """The server answers a POST as soon as it has the head - a complete, keep-alive response - and one write of the
     request fails without the connection dying (a peer that stopped listening): for every write of the request in turn.
@@ -194,6 +293,9 @@ def run_case(case):
             for key in ("early_answer_runs", "early_answer_faults_fired"):
                 cnt[key] = 0
             await early_answer_sweep(case["flavor"], case["ctype"], cnt, v, sigs)
+            return
+        if case.get("kind") == "writer-cancel":
+            await writer_cancel_sweep(case["flavor"], cnt, v, sigs)
             return
         if case.get("kind") == "reader-cancel":
             for key in ("reader_cancel_runs", "reader_cancel_other_ok", "reader_cancel_other_failed"):
@@ -266,6 +368,8 @@ def plan(tier, seed):
     for flavor in ("asyncio", "trio", "sync"):
         for ctype in (("h1", "fwd") if tier == "quick" else ("h1", "h1tls", "fwd", "tun", "socks")):
             cases.append({"kind": "early-answer", "flavor": flavor, "ctype": ctype, "seed": 1})
+    for flavor in ("asyncio", "trio"):
+        cases.append({"kind": "writer-cancel", "flavor": flavor, "seed": 1})
     for flavor in ("asyncio", "trio"):
         for seg in ((300, 900, "all") if tier == "quick" else (300, 900, 1400, 5000, "all")):
             cases.append({"kind": "reader-cancel", "flavor": flavor, "seg": seg, "seed": 1})
